@@ -149,7 +149,10 @@ pub fn check_step(pre: &QState, x: f64, post: &QState) -> Result<StepInfo, (Stri
         let up_maybe = d >= 1.0 - tol_d && can_up;
         let dn_sure = d <= -1.0 - tol_d && can_down;
         let dn_maybe = d <= -1.0 + tol_d && can_down;
-        let tol_q = 64.0 * U * q[i - 1].abs().max(q[i].abs()).max(q[i + 1].abs());
+        // relative to the neighbouring heights, with an absolute floor of a few units of the smallest
+        // subnormal: down there every operation of the formulas rounds to a multiple of 2^-1074, and an
+        // algebraically equivalent evaluation order may differ by a few such units
+        let tol_q = (64.0 * U * q[i - 1].abs().max(q[i].abs()).max(q[i + 1].abs())).max(f64::from_bits(16));
         // admissible outcomes: (height, position, kind) kind 0 stay, 1 parabolic, 2 linear
         let mut options: Vec<(f64, i64, u8, i64)> = vec![];
         for (maybe, s) in [(up_maybe, 1i64), (dn_maybe, -1i64)] {
